@@ -225,6 +225,33 @@ func offsetDerived(v ssa.Value, depth int) bool {
 	return false
 }
 
+// resolveFuncValue: the function a function-typed value denotes (through method-expression thunks and closures).
+func resolveFuncValue(v ssa.Value) *ssa.Function {
+	var f *ssa.Function
+	switch x := v.(type) {
+	case *ssa.Function:
+		f = x
+	case *ssa.MakeClosure:
+		f, _ = x.Fn.(*ssa.Function)
+	}
+	if f == nil {
+		return nil
+	}
+	if f.Synthetic != "" {
+		// thunk / bound-method wrapper: forwards to exactly one function
+		for _, b := range f.Blocks {
+			for _, in := range b.Instrs {
+				if c, ok := in.(*ssa.Call); ok {
+					if g := c.Call.StaticCallee(); g != nil {
+						return g
+					}
+				}
+			}
+		}
+	}
+	return f
+}
+
 func runReuse(r *core.Run) {
 	for _, tc := range []struct{ fn, scanner string }{{"IsIdent", "consumeIdentToken"}, {"IsURLUnquoted", "consumeUnquotedURL"}} {
 		fn := r.Prog.SSAFunc("css", "", tc.fn)
@@ -232,42 +259,67 @@ func runReuse(r *core.Run) {
 			r.BrokenAnchor("css." + tc.fn)
 			continue
 		}
+		// the body that does the work: fn itself, or a helper that fn merely forwards to with the scanner as a function argument
+		body := fn
+		argParam := ssa.Value(fn.Params[0]) // the []byte argument as seen in `body`
+		var scanParam ssa.Value             // function-typed parameter of `body` bound to the scanner, if any
+		if ret := singleReturn(fn); ret != nil && len(ret.Results) == 1 {
+			if c, ok := ret.Results[0].(*ssa.Call); ok {
+				if h := c.Call.StaticCallee(); h != nil && core.InModule(fnPkg(h)) && len(h.Blocks) > 0 {
+					bi, si := -1, -1
+					for i, a := range c.Call.Args {
+						if a == ssa.Value(fn.Params[0]) {
+							bi = i
+						}
+						if g := resolveFuncValue(a); g != nil && g.Name() == tc.scanner && recvName(g) == "Lexer" {
+							si = i
+						}
+					}
+					if bi >= 0 && si >= 0 && bi < len(h.Params) && si < len(h.Params) {
+						body, argParam, scanParam = h, h.Params[bi], h.Params[si]
+					}
+				}
+			}
+		}
 		var newLexer, scan *ssa.Call
 		var input *ssa.Call
-		for _, b := range fn.Blocks {
+		for _, b := range body.Blocks {
 			for _, in := range b.Instrs {
 				c, ok := in.(*ssa.Call)
 				if !ok {
+					continue
+				}
+				if scanParam != nil && c.Call.Value == scanParam && !c.Call.IsInvoke() {
+					scan = c
 					continue
 				}
 				f := c.Call.StaticCallee()
 				if f == nil {
 					continue
 				}
-				switch f.Name() {
-				case "NewLexer":
+				switch {
+				case f.Name() == "NewLexer" && core.RelPkg(fnPkg(f)) == "css":
 					newLexer = c
-				case "NewInputBytes":
+				case f.Name() == "NewInputBytes":
 					input = c
-				case tc.scanner:
+				case scanParam == nil && f.Name() == tc.scanner && recvName(f) == "Lexer":
 					scan = c
 				}
 			}
 		}
 		ok := newLexer != nil && scan != nil && input != nil &&
-			input.Call.Args[0] == fn.Params[0] && newLexer.Call.Args[0] == ssa.Value(input) && scan.Call.Args[0] == ssa.Value(newLexer) &&
-			recvName(scan.Call.StaticCallee()) == "Lexer"
+			input.Call.Args[0] == argParam && newLexer.Call.Args[0] == ssa.Value(input) && len(scan.Call.Args) > 0 && scan.Call.Args[0] == ssa.Value(newLexer)
 		r.Check(ok, "css."+tc.fn+" runs Lexer."+tc.scanner+" on a fresh lexer over the argument", fn.Pos(), "", "the helper no longer delegates to the lexer's own scanner "+tc.scanner+" on NewLexer(NewInputBytes(arg)): agreement with the lexer is no longer by construction")
 		// result: Pos() == len(b)
-		ret := singleReturn(fn)
+		ret := singleReturn(body)
 		good := false
 		if ret != nil {
 			if bo, isBo := ret.Results[0].(*ssa.BinOp); isBo && bo.Op == token.EQL {
 				x, y := linOf(bo.X), linOf(bo.Y)
-				lenb := linAtom("len(" + fn.Params[0].Name() + ")")
+				lenb := linAtom("len(" + argParam.Name() + ")")
 				isPos := func(l Lin) bool {
 					for a, cf := range l.T {
-						if strings.HasSuffix(a, ".r.Pos()") && cf == 1 && len(l.T) == 1 && l.C == 0 {
+						if strings.HasSuffix(a, ".Pos()") && cf == 1 && len(l.T) == 1 && l.C == 0 {
 							return true
 						}
 					}
@@ -276,6 +328,6 @@ func runReuse(r *core.Run) {
 				good = (isPos(x) && y.equal(lenb)) || (isPos(y) && x.equal(lenb))
 			}
 		}
-		r.Check(good, "css."+tc.fn+" is true iff the scan ends at len(arg)", fn.Pos(), "", "result is not `l.r.Pos() == len(b)`")
+		r.Check(good, "css."+tc.fn+" is true iff the scan ends at len(arg)", fn.Pos(), "", "result is not `<cursor>.Pos() == len(arg)`")
 	}
 }
